@@ -486,6 +486,20 @@ def _prologue_projection(text):
     return " ".join(out)
 
 
+def _c04_extras(pg, rng):
+    """Programs so long that the distance of the architecture jump needs more than 16 bits (the compiler has no size limit
+    of its own; the kernel's limit of 4096 is C07's business): foreign events must still reach the final return."""
+    out = []
+    for k, (an, ng) in enumerate((("AARCH64", 330), ("X86_64", 328))):
+        tbl = [s for (_, s) in pg.arches[an]["table"]]
+        groups = [dict(action=rng.choice([0x7fff0000, 0x50000, 0x7ffc0000]), names=rng.sample(tbl, 199), nwc=[]) for _ in range(ng)]
+        pol = dict(default=0x30000, groups=groups, arch=an, kind="huge")
+        cid = "xh%d" % k
+        evs = pg.events(pol, 30, foreign_share=0.7, x32_share=0.3)
+        out.append((cid, "P %s 1 %s %s" % (cid, an, PolicyGen.tokens(pol)), evs, dict(kind="huge", arch=an, defect=None, le=1, groups=ng)))
+    return out
+
+
 def check_C04(ctx, replay=None):
     def differs(c):
         return _prologue_projection(c.get("model", "")) != _prologue_projection(c["go"])
@@ -499,7 +513,7 @@ def check_C04(ctx, replay=None):
                       ["names", "names_long", "names_long", "names_long", "cond", "mixed", "mixed_long", "condlong", "degenerate", "whole_table"],
                       "policies of every kind sized so that the architecture jump distance straddles 255/256 (name lists of 245..260 and longer, conditional entries), all four tables and the x32 table (same audit word as x86_64: the guard applies); compared with the extracted model on the prologue, the instruction the architecture jump lands on and the x32 guard; every accepted program run ONLY on events of a foreign architecture (all audit ids of the package, bit flips of the native id, random words) and, natively, numbers with the x32 bit (0x40000000, |n, 0xFFFFFFFF, ...) or just below it, against the extracted decide; non-trivial = accepted policy with events evaluated",
                       replay=replay, npol=(400, 4000), nev=(40, 80), foreign_share=0.6, x32_share=0.4, diff_filter=differs, gen=gen,
-                      arches=PolicyGen.TABLE_ARCHES * 2 + ["X32"])
+                      arches=PolicyGen.TABLE_ARCHES * 2 + ["X32"], extra_cases=_c04_extras)
 
 
 # ------------------------------------------------------------------------------------------------ C05
@@ -567,6 +581,15 @@ def check_C05(ctx, replay=None):
                 res["meta"]["x" + cid] = res2["meta"].get(cid)
             ctx.coverage["defective_policies_offered"] = len(res2["cases"])
             ctx.coverage["defective_policies_accepted_by_impl"] = sum(1 for c in res2["cases"].values() if c["go"].startswith("OK"))
+    if not replay:
+        # programs emitted by a 32-bit build of the library (linux/386, byte order as the library determines it): the same
+        # judgement - the layout of seccomp_data does not depend on the build's word size
+        res3 = policy_stream(ctx, "C05", ["cond", "cond", "mixed", "single_cond"], 80 if ctx.tier == "quick" else 800, 0, goarch="386", native_endian=True, salt=5386)
+        if res3 is not None:
+            for cid, c in res3["cases"].items():
+                cases["b386" + cid] = c
+                res["meta"]["b386" + cid] = dict(res3["meta"].get(cid) or {}, goarch="386")
+            ctx.coverage["programs_of_a_386_build_judged"] = len(res3["cases"])
     judged = 0
     raws = {}
     for cid, c in cases.items():
